@@ -803,3 +803,95 @@ A :=
         }
     }
 }
+
+/// Verification hooks (feature `pasfmt_verif`): the two halves of cursor tracking, separately.
+#[cfg(feature = "pasfmt_verif")]
+pub mod verif_hooks_reconstructor {
+    use super::*;
+
+    /// Mirror of the private `TokPos`.
+    #[derive(Debug, Clone, Copy, PartialEq, Eq)]
+    pub enum Pos {
+        Content { offset: u32 },
+        MultilineContent { reverse_col: u16, newlines_after_cursor: u16 },
+        Whitespace { col: u16, newlines_after_cursor: u16 },
+    }
+
+    fn to_pos(p: &TokPos) -> Pos {
+        match *p {
+            TokPos::Content { offset } => Pos::Content { offset },
+            TokPos::MultilineContent {
+                reverse_col,
+                newlines_after_cursor,
+            } => Pos::MultilineContent {
+                reverse_col,
+                newlines_after_cursor,
+            },
+            TokPos::Whitespace {
+                col,
+                newlines_after_cursor,
+            } => Pos::Whitespace {
+                col,
+                newlines_after_cursor,
+            },
+        }
+    }
+
+    fn from_pos(p: Pos) -> TokPos {
+        match p {
+            Pos::Content { offset } => TokPos::Content { offset },
+            Pos::MultilineContent {
+                reverse_col,
+                newlines_after_cursor,
+            } => TokPos::MultilineContent {
+                reverse_col,
+                newlines_after_cursor,
+            },
+            Pos::Whitespace {
+                col,
+                newlines_after_cursor,
+            } => TokPos::Whitespace {
+                col,
+                newlines_after_cursor,
+            },
+        }
+    }
+
+    /// Runs `process_cursors` for one cursor and returns what it was attached to.
+    pub fn attach(
+        recon: &DelphiLogicalLinesReconstructor,
+        cursor: u32,
+        tokens: &[RawToken],
+    ) -> (usize, Pos) {
+        let mut cursors = [Cursor(cursor)];
+        let tracker = recon.process_cursors(&mut cursors, tokens);
+        // SAFETY: `process_cursors` always returns a `CursorTrackerImpl`
+        let raw = Box::into_raw(tracker) as *mut CursorTrackerImpl;
+        let imp = unsafe { &*raw };
+        let c = &imp.cursors[0];
+        let r = (c.tok_idx, to_pos(&c.tok_pos));
+        // leaked on purpose (verification builds only)
+        r
+    }
+
+    /// Runs `relocate_cursors` for one cursor attached as given; returns the new offset.
+    pub fn relocate(
+        recon: &DelphiLogicalLinesReconstructor,
+        tok_idx: usize,
+        pos: Pos,
+        formatted_tokens: &FormattedTokens,
+    ) -> u32 {
+        let mut cursor = Cursor(0);
+        let mut tracker = std::mem::ManuallyDrop::new(CursorTrackerImpl {
+            reconstructor: recon,
+            cursors: vec![InternalCursor {
+                cursor: &mut cursor,
+                tok_idx,
+                tok_pos: from_pos(pos),
+            }],
+        });
+        tracker.relocate_cursors(formatted_tokens);
+        let r = tracker.cursors[0].cursor.0;
+        r
+    }
+}
